@@ -27,13 +27,22 @@ type GuardSpec struct {
 	Lock    string   // pkg.Type.lockfield
 	Props   []string
 	Holders map[string]bool // functions whose callers hold the lock
+	Except  map[string]bool // functions exempt from the discipline (argued separately in the contract file)
 	Src     string
 }
 
 func parseGuarded(rest, pkg string) (*GuardSpec, error) {
 	c := &Clause{}
 	rest = parseTags(rest, c)
-	g := &GuardSpec{Props: c.Props, Holders: map[string]bool{}, Src: rest}
+	g := &GuardSpec{Props: c.Props, Holders: map[string]bool{}, Except: map[string]bool{}, Src: rest}
+	if k := strings.Index(rest, " except "); k >= 0 {
+		for _, h := range strings.Split(rest[k+len(" except "):], ",") {
+			if h = strings.TrimSpace(h); h != "" {
+				g.Except[qualify(h, pkg)] = true
+			}
+		}
+		rest = rest[:k]
+	}
 	if k := strings.Index(rest, " callers-hold "); k >= 0 {
 		for _, h := range strings.Split(rest[k+len(" callers-hold "):], ",") {
 			if h = strings.TrimSpace(h); h != "" {
@@ -215,6 +224,9 @@ func (v *Verifier) guardViolations(g *GuardSpec) []string {
 			pkg = p.Parent().Pkg
 		}
 		if pkg == nil || !v.isRepoPkg(pkg.Pkg.Path()) {
+			continue
+		}
+		if g.Except[k] {
 			continue
 		}
 		if why := v.guardCheck(f, g); why != "" {
